@@ -18,13 +18,29 @@ def vreplay_bin(profile='debug'):
     env = dict(os.environ)
     env['CARGO_NET_OFFLINE'] = 'true'
     env.pop('RUSTFLAGS', None)
-    cmd = ['cargo', 'build', '--offline', '--manifest-path', os.path.join(common.VERIF, 'replay', 'Cargo.toml'), '--target-dir', RTARGET]
+    manifest = os.path.join(common.VERIF, 'replay', 'Cargo.toml')
+    target = RTARGET
+    if os.path.realpath(common.REPO) != '/repo':
+        # checking a tree other than /repo (VERIF_REPO=<worktree>): a copy of the replayer crate whose walrus
+        # dependency points at that tree, with a target directory of its own
+        import hashlib
+        import shutil
+        tag = hashlib.sha1(os.path.realpath(common.REPO).encode()).hexdigest()[:10]
+        alt = os.path.join(common.BUILD, 'replay-alt-' + tag)
+        if os.path.isdir(alt):
+            shutil.rmtree(alt)
+        shutil.copytree(os.path.join(common.VERIF, 'replay'), alt, ignore=shutil.ignore_patterns('target'))
+        mt = open(os.path.join(alt, 'Cargo.toml')).read().replace('path = "/repo"', 'path = "%s"' % os.path.realpath(common.REPO))
+        open(os.path.join(alt, 'Cargo.toml'), 'w').write(mt)
+        manifest = os.path.join(alt, 'Cargo.toml')
+        target = os.path.join(common.BUILD, 'replay-target-alt-' + tag)
+    cmd = ['cargo', 'build', '--offline', '--manifest-path', manifest, '--target-dir', target]
     if profile == 'release':
         cmd.append('--release')
     p = subprocess.run(cmd, env=env, capture_output=True, text=True)
     if p.returncode != 0:
         raise common.Inconclusive('vreplay build failed: ' + p.stderr[-1500:])
-    b = os.path.join(RTARGET, profile, 'vreplay')
+    b = os.path.join(target, profile, 'vreplay')
     _built[profile] = b
     return b
 
@@ -43,7 +59,7 @@ _TAG = ['']
 
 
 def save_witness(pid, key, obj):
-    d = os.path.join(common.VERIF, 'evidence', 'replays', pid)
+    d = os.path.join(common.EVIDENCE, 'replays', pid)
     os.makedirs(d, exist_ok=True)
     name = re.sub(r'[^A-Za-z0-9_.=+-]', '_', key)[:100] + (('.' + _TAG[0]) if _TAG[0] else '') + '.json'
     path = os.path.join(d, name)
